@@ -238,12 +238,62 @@ def m_opt_map(em, e, rt, rty, env, k):
     """Option::map(<translated function>)"""
     if len(e.args) != 1:
         raise EmitError("Option::map takes one argument")
+    if e.args[0].kind == "closure":
+        return m_opt_map_closure(em, e, rt, rty, env, k)
     sh = one_param_fn(em, e.args[0], "Option::map")
     if rty[0] != "opt" or rty[1] != sh["params"][0][1]:
         raise EmitError("Option::map(%s) on %r" % (sh["coq"], rty))
     if sh["total"]:
         return k("(option_map %s %s)" % (sh["coq"], rt), ("opt", sh["ret"]), env)
     return em.bind("rf_opt_map_m %s %s" % (sh["coq"], rt), ("opt", sh["ret"]), env, k, hint="om")
+
+
+def closure_body(em, cl, elem_ty, env, what):
+    """the body of a one-parameter closure that assigns nothing it captures, over an element of type elem_ty:
+    (bound variable, pure term or None, monadic body or None, type of the body)"""
+    if len(cl.params) != 1:
+        raise EmitError("%s needs a one-parameter closure" % what)
+    p = cl.params[0][0]
+    while p.kind == "pref":
+        p = p.inner
+    if p.kind != "pident":
+        raise EmitError("%s: closure parameter pattern" % what)
+    if em.assigned(cl.body, env):
+        raise EmitError("%s: the closure assigns a captured variable" % what)
+    c = em.fresh(p.name)
+    env2 = env.bind(p.name, c, elem_ty)
+    pr = em.try_pure(cl.body, env2)
+    if pr is not None:
+        return c, pr[0], None, pr[1]
+    box = []
+    oldpm, oldctl = em.pure_mode, em.ctl
+    em.pure_mode = 0
+
+    def no_ctl(*_a):
+        raise EmitError("return / break inside a closure")
+    from rs2v.emit import Ctl
+    em.ctl = Ctl(no_ctl)
+    try:
+        def kb(t, ty, _envx):
+            box.append(ty)
+            return "Some %s" % t
+        body = em.expr(cl.body, env2, kb)
+    finally:
+        em.pure_mode, em.ctl = oldpm, oldctl
+    if len(set(map(repr, box))) != 1:
+        raise EmitError("%s: closure body with exits of several types (or none)" % what)
+    return c, None, "\n".join("    " + l for l in body.split("\n")), box[0]
+
+
+def m_opt_map_closure(em, e, rt, rty, env, k):
+    """Option::map(|x| body): `option_map (fun x => ..)` when the body is pure, else a bind of `rf_opt_map_m (fun x => ..)`
+    (the body may panic: a 16-arm match over a number-represented enum has a `None` default); `?` / `return` inside are errors"""
+    if rty[0] != "opt":
+        raise EmitError("Option::map on %r" % (rty,))
+    c, pure, body, ty = closure_body(em, e.args[0], rty[1], env, "Option::map")
+    if pure is not None:
+        return k("(option_map (fun %s => %s) %s)" % (c, pure, rt), ("opt", ty), env)
+    return em.bind("rf_opt_map_m (fun %s =>\n%s) %s" % (c, body, rt), ("opt", ty), env, k, hint="om")
 
 
 def m_list_map(em, e, rt, rty, env, k):
